@@ -38,6 +38,20 @@ impl VSource {
             final(self).all() == old(self).all(),
             r is Ok ==> (to matches std::io::SeekFrom::Start(n) ==> final(self).left() ==
                 (if n as int <= old(self).all().len() { old(self).all().skip(n as int) } else { Seq::<u8>::empty() })),
+            // an in-memory stream: seeking to an absolute position or to the end cannot fail
+            (to is Start || to is End) ==> r is Ok,
+            // `SeekFrom::End(0)`: the end of the stream; the result is its length
+            r is Ok ==> (to matches std::io::SeekFrom::End(n) ==> (n == 0 ==>
+                final(self).left() == Seq::<u8>::empty() && r->Ok_0 as int == old(self).all().len())),
+    { unimplemented!() }
+
+    // `reader.rewind()`: back to the start
+    #[verifier::external_body]
+    pub fn rewind(&mut self) -> (r: std::io::Result<()>)
+        ensures
+            final(self).all() == old(self).all(),
+            r is Ok,
+            final(self).left() == old(self).all(),
     { unimplemented!() }
 
     // `reader.stream_position()`: the current position; the stream is unchanged.  While bytes are
